@@ -436,6 +436,8 @@ def failure_needs_lookup(cx: Cx, ob: Ob, fn, s, me, side: str) -> None:
             continue
         if any(asks(t) for ev in p.events for t in (ev.a, ev.b)) or (o is not None and len(o) > 1 and asks(o[1]) and o[0] == "return"):
             continue
+        if any(ev.kind == "except" for ev in p.events):
+            continue  # the failure is what a `try` body (the lookup) raised
         atoms = guard_atoms([g for g in p.events if g.kind == "guard"])
         if any(a == ("cmp", "is", arg, NONE) and pol is True for a, pol in atoms):
             continue  # None is not a string: nothing to look up
